@@ -291,6 +291,15 @@ def c10(ctx):
     ctx.tlc_pipe("MC_Composer.tla", "MC_Composer.cfg", ["composer-replay"], overrides=ov, timeout=3000,
                  env_extra={"VERIF_TWIN_URIS": "1"}, label="exhaustive replay, twin URIs: " + label)
     ctx.negctl_replay(["composer-replay"], first, bump_doc)
+    # RFC 6902 on arrays (PatchArray.tla): every list of <= MaxOps operations on every array of <= MaxArr elements
+    pa = {"MaxArr": 2, "MaxOps": 2} if ctx.tier == "quick" else {"MaxArr": 3, "MaxOps": 2, "Vals": "{1, 2}"}
+    _, ps = ctx.tlc_pipe("MC_PatchArray.tla", "MC_PatchArray.cfg", ["patcharray-replay"], overrides=pa, timeout=3000,
+                         label="PatchArray.tla: add / remove / replace / test / copy / move on array elements, lists of <= 2 operations")
+
+    def pwrong(rec):
+        rec["ok"] = not rec["ok"]
+
+    ctx.negctl_replay(["patcharray-replay"], ps["_first_edge"], pwrong)
     n = 1500 if ctx.tier == "quick" else 40000
     validate_trace(ctx, "composer", ["-n", str(n), "-maxlen", "12"], "ComposerTrace.tla", "ComposerTrace.cfg",
                    "composer_trace.ndjson", histories=n, key_of=composer_key, corrupt=corrupt_composer)
